@@ -171,6 +171,9 @@ int main(int argc, char** argv)
     all_for<long double, std::ranlux24>("long double", seed * 100 + 66, "ranlux24");
     all_for<float, std::knuth_b>("float", seed * 100 + 67, "knuth_b");
     all_for<long double, lcg_m24>("long double", seed * 100 + 68, "lcg a=69069 c=7 m=2^24-3");
+    all_for<double, std::independent_bits_engine<std::mt19937_64, 53, std::uint64_t>>("double", seed * 100 + 69, "independent_bits_engine<mt19937_64, 53>");
+    all_for<double, std::independent_bits_engine<std::mt19937, 14, std::uint32_t>>("double", seed * 100 + 70, "independent_bits_engine<mt19937, 14>");
+    all_for<long double, std::linear_congruential_engine<unsigned long long, 6364136223846793005ULL, 1ULL, 18446744073709551557ULL>>("long double", seed * 100 + 71, "lcg m=2^64-59");
     big_counts();
     if (g_rank == 0) std::printf("SUMMARY ok=%d fail=%d world=%d\n", g_ok, g_fail, g_world);
     MPI_Finalize();
